@@ -71,6 +71,7 @@ func (c *Ctx) authOKSites(fn *ssa.Function) []ssa.CallInstruction {
 
 func runC01(c *Ctx) {
 	R := c.R
+	defer c.include("C01.S1", "C03", []string{"C03.R3"}, "only a well-formed password message is accepted: the window holds the bytes of that message and nothing left over from an earlier one", 2)
 	R.Technique = "dominance + error-class (nil / non-nil) analysis over the SSA form of the authentication strategy, handleAuth and serve"
 	R.Explanation = "Decides the control-flow skeleton that makes 'session => credentials accepted' true for every input and validator outcome: " +
 		"(R1) in every AuthStrategy defined in the library each return that may carry a nil error, and each AuthenticationOk emission, is dominated by the " +
